@@ -3,6 +3,7 @@ from typing import Optional, cast
 from ..expressions import (
     AddExpression,
     ConstantExpression,
+    DivideExpression,
     EqualExpression,
     MathExpression,
     MultiplyExpression,
@@ -64,8 +65,11 @@ class RestateSubtractionRule(BaseRule):
                 # 3 - -2 + -u^2
                 return _OP_SUBTRACTION_NEGATIVE_CONST
 
+            # Flipping the sign of a leading constant only negates the right operand
+            # when that constant is a factor of it: "3x" or "3 / x", but not "3 + x",
+            # "3 - x" or "3^x".
             if (
-                node.right is not None
+                isinstance(node.right, (MultiplyExpression, DivideExpression))
                 and isinstance(node.right.left, ConstantExpression)
                 and node.right.left.value is not None
             ):
